@@ -11,6 +11,7 @@ package main
 
 import (
 	"fmt"
+	"math/rand"
 	"os"
 	"strings"
 	"sync"
@@ -821,12 +822,13 @@ func replayScenarios(c *hx.Ctx) []*scenario {
 			want[f[3]] = true
 		}
 	}
+	// every check runs one family, which then is the only consumer of the PRNG: regenerate each family from a fresh PRNG
+	// with the run's seed, so that the randomly composed scenarios (c16 mixes, c20 packet ids) come out as they were
 	var all []*scenario
-	all = append(all, famC20(c)...)
-	all = append(all, famC07(c)...)
-	all = append(all, famC08(c)...)
-	all = append(all, famC16(c)...)
-	all = append(all, famC12(c)...)
+	for _, fam := range []func(*hx.Ctx) []*scenario{famC20, famC07, famC08, famC16, famC12} {
+		c.Rng = rand.New(rand.NewSource(c.Seed))
+		all = append(all, fam(c)...)
+	}
 	var out []*scenario
 	for _, sc := range all {
 		if want[sc.text()] {
